@@ -9,6 +9,7 @@ import GocoinV.Proofs.C15Bech32d
 import GocoinV.Proofs.C15Segwit
 import GocoinV.Proofs.C15SegwitInv
 import GocoinV.Proofs.C15Fits
+import GocoinV.Proofs.C15Addr
 namespace GocoinV.Props.C15
 open GocoinV Bech32
 
@@ -73,36 +74,8 @@ example : (segwitDecode [98, 99] [66, 67, 49, 81, 87, 53, 48, 56, 68, 54, 81, 69
 
 /-- Base58 is lossless: decoding the encoding of any non-empty byte string returns it unchanged
     (leading zero bytes included). The alphabet is the one REGENERATED from lib/btc/addr.go. -/
-theorem b58_decode_encode (a : Bytes) (h : a ≠ []) : Base58.decode (Base58.encode a) = some a := by
-  open Base58 in
-  unfold Base58.decode Base58.encode
-  have hv : value? (List.replicate (leadingZeros a) (digitChar 0) ++ (digits (beVal a)).map digitChar) 0
-      = some (beVal a) := by
-    rw [value?_replicate_zero, value?_map _ (digits_lt _), ofDigits_digits]
-  rw [hv]
-  have htw : (List.takeWhile (fun x => x == digitChar 0)
-      (List.replicate (leadingZeros a) (digitChar 0) ++ (digits (beVal a)).map digitChar)).length
-      = leadingZeros a := by
-    rw [List.takeWhile_append_of_pos (by intro x hx; rw [List.eq_of_mem_replicate hx]; exact beq_self_eq_true _)]
-    have : List.takeWhile (fun x => x == digitChar 0) ((digits (beVal a)).map digitChar) = [] := by
-      cases hd : digits (beVal a) with
-      | nil => rfl
-      | cons d t =>
-        have hlt : d < 58 := digits_lt (beVal a) d (by rw [hd]; exact List.mem_cons_self)
-        have hne := digits_head_ne_zero (beVal a) d t hd
-        have := digitChar_ne_one ⟨d, hlt⟩ hne
-        simp only [List.map_cons]
-        rw [List.takeWhile_cons_of_neg (by simpa using this)]
-    rw [this]; simp
-  simp only [htw]
-  have hb : natBytes (beVal a) = a.dropWhile (· == 0) := natBytes_leVal_reverse a
-  rw [hb]
-  have hres : List.replicate (leadingZeros a) (0 : UInt8) ++ a.dropWhile (· == 0) = a :=
-    replicate_takeWhile_dropWhile a
-  rw [hres]
-  cases a with
-  | nil => exact absurd rfl h
-  | cons x t => rfl
+theorem b58_decode_encode (a : Bytes) (h : a ≠ []) : Base58.decode (Base58.encode a) = some a :=
+  Base58.decode_encode a h
 
 /-- non-vacuity / sanity: a 25-byte payload with leading zero round-trips by evaluation too -/
 example : Base58.decode (Base58.encode [0, 0, 1, 2, 255]) = some [0, 0, 1, 2, 255] :=
@@ -207,5 +180,62 @@ example : (segwitDecode [98, 99] [66, 67, 49, 81, 87, 53, 48, 56, 68, 54, 81, 69
     them from the end; the encoding of EVERY byte string fits (256^100 < 58^138, plus the 100 residues). -/
 theorem b58_encode_fits (a : Bytes) : (Base58.encode a).length ≤ a.length * 138 / 100 + 1 :=
   Base58.encode_length_le a
+
+/-- Address level, script → address → script, for the five supported destination forms (`Addr.Supported`:
+    witness v0 with a 20/32-byte program, witness v1..16 with a 2..40-byte program, P2PKH with version byte
+    0/111/48, P2SH with version byte 5/196, 20-byte hashes), for either network flag and EVERY hash
+    function: `OutScript` does not panic, `NewAddrFromPkScript` recognises the script it produced, and the
+    address it returns has the same `OutScript`. -/
+theorem addr_script_roundtrip (H : Addr.Hashes) (a : Addr.Addr) (tn : Bool) (hs : Addr.Supported a) :
+    ∃ scr a', Addr.outScript a = some scr ∧ Addr.fromPkScript H scr tn = some a' ∧
+      Addr.outScript a' = some scr :=
+  Addr.script_roundtrip H a tn hs
+
+/-- non-vacuity: a version-1 witness program of 32 bytes is a supported form -/
+example : Addr.Supported (.segwit [98, 99] 1 (List.replicate 32 7)) := by
+  refine ⟨by omega, by simp, by simp, by omega⟩
+
+/-- Address level, address → string → address ("encoding and then decoding any supported destination yields
+    the same output script"): for every supported form built the way the wallet builds it (`Addr.Fresh`:
+    hrp "bc" or "tb", no cached Base58 string), `String()` produces a string, `NewAddrFromString` accepts
+    that string, and the address it returns has the same `OutScript`. Holds for EVERY hash function whose
+    double-SHA256 slot returns 32 bytes. For Base58 the proof includes that the string of the five
+    supported version bytes starts with '1', '3', 'm'/'n', '2' or 'L' and therefore is never taken for a
+    segwit address by the "bc1"/"tb1" prefix test. -/
+theorem addr_string_roundtrip (H : Addr.Hashes) (hH : ∀ x, (H.sha2sum x).length = 32) (a : Addr.Addr)
+    (hs : Addr.Supported a) (hf : Addr.Fresh a) :
+    ∃ s a', Addr.toString H a = some s ∧ Addr.fromString H s = .ok a' ∧ Addr.outScript a' = Addr.outScript a :=
+  Addr.string_roundtrip H hH a hs hf
+
+/-- non-vacuity: a P2SH address without cached string is supported and fresh -/
+example : Addr.Supported (.b58 5 (List.replicate 20 9) none) ∧ Addr.Fresh (.b58 5 (List.replicate 20 9) none) :=
+  ⟨⟨by simp, by simp⟩, rfl⟩
+
+/-- Base58Check acceptance stated outright, for EVERY string of at least 4 bytes that does not start with
+    "bc1"/"tb1" (any case) and EVERY hash function: `NewAddrFromString` accepts exactly when the Base58
+    decoding has 25 bytes and its last 4 bytes equal the first 4 bytes of the double-SHA256 of the first 21;
+    the address then carries byte 0 as version and bytes 1..20 as hash. A wrong checksum, a bad character
+    (decode = none), a short or an over-long payload are all refused. -/
+theorem b58check_accept_iff (H : Addr.Hashes) (hs : Bytes) (hlen : 4 ≤ hs.length)
+    (hp : ¬ Addr.segwitPrefix hs) (a : Addr.Addr) :
+    Addr.fromString H hs = .ok a ↔
+      ∃ dec, Base58.decode hs = some dec ∧ dec.length = 25 ∧ (H.sha2sum (dec.take 21)).take 4 = dec.drop 21 ∧
+        a = .b58 (dec.headD 0) ((dec.drop 1).take 20) (some hs) :=
+  Addr.b58check_accept_iff H hs hlen hp a
+
+/-- non-vacuity: "1111" has 4 bytes and no segwit prefix -/
+example : 4 ≤ ([49, 49, 49, 49] : Bytes).length ∧ ¬ Addr.segwitPrefix [49, 49, 49, 49] := by
+  refine ⟨by simp, Addr.not_prefix_of_first _ _ (by decide)⟩
+
+/-- segwit strings at the address level: for hrp "bc"/"tb", `String()` then `NewAddrFromString` returns
+    exactly the same address (hrp, version, program) -/
+theorem addr_segwit_string_roundtrip (H : Addr.Hashes) (hrp prog s : Bytes) (v : Nat)
+    (hh : hrp = strBytes "bc" ∨ hrp = strBytes "tb")
+    (h : Addr.toString H (.segwit hrp v prog) = some s) : Addr.fromString H s = .ok (.segwit hrp v prog) :=
+  Addr.fromString_toString_segwit H hrp prog s v hh h
+
+/-- non-vacuity: such a string exists for a v0 20-byte program on "tb" (H is irrelevant for segwit) -/
+example (H : Addr.Hashes) : (Addr.toString H (.segwit [116, 98] 0 (List.replicate 20 1))).isSome = true := by
+  simp only [Addr.toString]; decide +kernel
 
 end GocoinV.Props.C15
